@@ -14,15 +14,28 @@ pub open spec fn bools_body_ok(vals: Seq<bool>, out: Seq<u8>) -> bool {
 }
 
 impl Serialize for &[u16] {
-    open spec fn ser_pre(&self) -> bool { true }
+    // (a slice of u16 cannot be longer than isize::MAX / 2 elements; the installed vstd does not know that, the callers do know their lengths)
+    open spec fn ser_pre(&self) -> bool { self@.len() <= 0x7FFF_FFFF }
     open spec fn ser_ok(&self, out: Seq<u8>) -> bool { regs_body_ok(self@, out) }
     open spec fn ser_exc(&self, e: ExceptionCode) -> bool { false }
     open spec fn ser_may_reject(&self) -> bool { false }
-// (`for value in *self` iterates a std slice iterator, whose vstd specification is prophetic and cannot carry a `decreases`:
-//  the body is left to Kani, harness k_serialize_u16_slice [bounded], and only the contract is used by Verus callers)
-//@fn rodbus/src/common/serialize.rs | Serialize for &[u16]::serialize | tags=C03 | ext_body
+// big-endian registers after the byte count, for every length (Verus-native `for` over the slice; the Kani harness
+// k_serialize_u16_slice remains as a bounded cross-check on the unmodified crate)
+//@fn rodbus/src/common/serialize.rs | Serialize for &[u16]::serialize | tags=C03 | r10 r4n
+//@loop 0|            invariant
+//@loop 0|                cursor.wf(), cursor.cap() == old(cursor).cap(), final(cursor.dest)@ == final(old(cursor).dest)@,
+//@loop 0|                cursor.pos == old(cursor).pos + 1 + 2 * it__0.index@,
+//@loop 0|                forall|k: int| 0 <= k < old(cursor).pos ==> #[trigger] cursor.buf()[k] == old(cursor).buf()[k],
+//@loop 0|                cursor.buf()[old(cursor).pos as int] as int == 2 * self@.len(),
+//@loop 0|                forall|i: int| 0 <= i < it__0.index@ ==> #[trigger] be16_at(cursor.buf(), old(cursor).pos + 1 + 2 * i) == self@[i],
+//@loopstart 0| let ghost w0 = cursor.buf(); let ghost done0 = it__0.index@ as int;
+//@loopend 0| let base = old(cursor).pos as int; let w1 = cursor.buf();
+//@loopend 0| assert forall|i: int| 0 <= i < done0 + 1 implies #[trigger] be16_at(w1, base + 1 + 2 * i) == self@[i] by {
+//@loopend 0|     if i < done0 { assert(be16_at(w0, base + 1 + 2 * i) == self@[i]); assert(w1[base + 1 + 2 * i] == w0[base + 1 + 2 * i]); assert(w1[base + 2 + 2 * i] == w0[base + 2 + 2 * i]); }
+//@loopend 0| }
+//@exit 0| let base = old(cursor).pos as int; let w = cursor.buf(); let out = w.subrange(base, cursor.pos as int);
+//@exit 0| assert forall|i: int| 0 <= i < self@.len() implies #[trigger] be16_at(out, 1 + 2 * i) == self@[i] by { assert(be16_at(w, base + 1 + 2 * i) == self@[i]); }
 }
-//@bounded Serialize for &[u16]::serialize: contract assumed in Verus; Kani harness k_serialize_u16_slice checks it for slices of up to 8 registers
 impl Serialize for &[bool] {
     open spec fn ser_pre(&self) -> bool { true }
     open spec fn ser_ok(&self, out: Seq<u8>) -> bool { bools_body_ok(self@, out) }
